@@ -1520,3 +1520,37 @@ def generator_misuse (repo, modules):
 def walk_no_nested_ (node):
   from .model import walk_no_nested
   return walk_no_nested(node)
+
+
+# ---------------------------------------------------------------------------
+# local copies of attribute chains (`in_port = event.port`, `table = self.macToPort`) put back where they are used
+
+def inline_attr_copies (fnode, roots, keep=()):
+  """rewrites fnode in place: a local with exactly one assignment, made at the top level of the function body, whose value is a
+  pure attribute chain rooted at one of `roots` (parameter names / self), and whose chain is not re-bound anywhere in the function,
+  is replaced by that chain at every load (nested functions included); the assignment goes.  Returns the names replaced."""
+  import copy
+  def chain_root (e):
+    while isinstance(e, ast.Attribute): e = e.value
+    return e.id if isinstance(e, ast.Name) else None
+  stores = {}
+  for n in ast.walk(fnode):
+    if isinstance(n, ast.Name) and isinstance(n.ctx, (ast.Store, ast.Del)): stores[n.id] = stores.get(n.id, 0) + 1
+    if isinstance(n, ast.arg): stores[n.arg] = stores.get(n.arg, 0) + 1
+    if isinstance(n, (ast.Nonlocal, ast.Global)):
+      for nm in n.names: stores[nm] = stores.get(nm, 0) + 2
+  rebound = set(norm(n) for n in ast.walk(fnode) if isinstance(n, ast.Attribute) and isinstance(n.ctx, (ast.Store, ast.Del)))
+  done = {}
+  for st in list(fnode.body):
+    if isinstance(st, ast.Assign) and len(st.targets) == 1 and isinstance(st.targets[0], ast.Name) and isinstance(st.value, ast.Attribute) \
+       and chain_root(st.value) in roots and st.targets[0].id not in keep and stores.get(st.targets[0].id) == 1 and norm(st.value) not in rebound and stores.get(chain_root(st.value), 0) <= 1:
+      done[st.targets[0].id] = st.value
+      fnode.body.remove(st)
+  if not done: return []
+  class _R(ast.NodeTransformer):
+    def visit_Name (self, n):
+      if isinstance(n.ctx, ast.Load) and n.id in done: return ast.copy_location(copy.deepcopy(done[n.id]), n)
+      return n
+  _R().visit(fnode)
+  ast.fix_missing_locations(fnode)
+  return sorted(done)
